@@ -8,11 +8,11 @@ RULE = ("case = (generator type, construction path, jds, sizes, build callbacks,
         "permutations); motif shapes {bare edge, 0, 1, 2, 3, k edges; tuple-of-tuples, list-of-tuples, edges as lists} "
         "x {homogeneous, per-edge names} x the FORM in which the callbacks hand back their results (naming callbacks: tuple / "
         "list / iterator / generator / map / itertools.repeat, a fresh one-shot object per call; build callbacks: as written / "
-        "tuple / list / lists of lists), rotating over two thirds of the exhaustive family and drawn at random for 60% of the "
+        "tuple / list / lists of lists; fast and custom generators also: the single bare edge written as a LIST [u, v], alone or next to list-of-tuples motifs), rotating over two thirds of the exhaustive family and drawn at random for 60% of the "
         "random cases; exhaustive small family (N<=2 with column sums <=3 and N<=3 with sums <=2 in quick; N<=2 sums <=4 and N<=3 sums <=3 in thorough; <=2 topologies/orbits, all permutations, every "
         "builder that accepts the motif size) + seeded random (N<=12, <=4 orbits) + malformed stream; compared: the "
         "three columns entry by entry, callback calls, joint_degrees; a share of the random cases are histories (2-3 "
-        "generations on the same algorithm object / jds list, returned object damaged in between); the DESIGN section-3 replay is corpus entry 1; "
+        "generations on the same algorithm object / jds list, returned object damaged in between, or -- 40% -- every returned object kept untouched and judged again by c02_check after the last call); the DESIGN section-3 replay is corpus entry 1; "
         "10 corpus entries are custom motifs with per-edge names whose vertex group repeats a vertex (clique / star / diamond / "
         "cycle builders: one callback result holds the same vertex pair at two positions). "
         "LARGE RUNS, checker only (no model call): 2 (thorough 8) runs of the fast / network generator under the real seeded "
@@ -196,7 +196,7 @@ def check_calls(case, impl_obs):
         calls.append(("c01_check", G.c01_check_tree(st, o)))
         t = G.c02_check_tree(st, o) if isinstance(o, dict) else None
         calls.append(("c02_check", t if t is not None else VACUOUS))
-    return calls
+    return calls + G.later_check_calls(case, impl_obs, VACUOUS)
 
 
 def check_verdict(case, impl_obs, raws):
@@ -227,7 +227,7 @@ def check_verdict(case, impl_obs, raws):
             return ("c02_check rejected the observed columns%s (lengths %d/%d/%d; parallel columns, pair entries, one "
                     "block per callback call with its edges / names / a private id)" % (
                         where, len(o.get("edges", [])), len(o.get("names", [])), len(o.get("ids", []))))
-    return None
+    return G.later_verdict(case, impl_obs, raws[2 * len(steps):], valid)
 
 
 def nontrivial_key(case, impl_obs):
